@@ -18,7 +18,8 @@ use easy_ml::tensors::indexing::{
     TensorReferenceMutIterator, TensorTranspose,
 };
 use easy_ml::tensors::views::{
-    IndexRange as TIndexRange, TensorMut, TensorRange, TensorRef, TensorReverse, TensorView,
+    IndexRange as TIndexRange, TensorMask, TensorMut, TensorRange, TensorRef, TensorRename,
+    TensorReverse, TensorView,
 };
 use easy_ml::tensors::Tensor;
 use std::cell::RefCell;
@@ -369,6 +370,8 @@ fn show_left(vals: impl Iterator<Item = String>) -> String {
 #[derive(Clone, Debug)]
 enum TAd {
     Range(Vec<(&'static str, usize, usize)>),
+    Mask(Vec<(&'static str, usize, usize)>),
+    Rename(Vec<&'static str>),
     Reverse(Vec<&'static str>),
     Access(Vec<&'static str>),
     Transpose(Vec<&'static str>),
@@ -386,6 +389,11 @@ fn show_tad(a: &TAd) -> String {
             "range:{}",
             rs.iter().map(|(n, s, l)| format!("{}.{}.{}", n, s, l)).collect::<Vec<_>>().join(",")
         ),
+        TAd::Mask(rs) => format!(
+            "mask:{}",
+            rs.iter().map(|(n, s, l)| format!("{}.{}.{}", n, s, l)).collect::<Vec<_>>().join(",")
+        ),
+        TAd::Rename(ns) => format!("rename:{}", show_names(ns)),
         TAd::Reverse(ns) => format!("reverse:{}", show_names(ns)),
         TAd::Access(ns) => format!("access:{}", show_names(ns)),
         TAd::Transpose(ns) => format!("transpose:{}", show_names(ns)),
@@ -419,6 +427,16 @@ fn parse_tad(tok: &str) -> TAd {
                 })
                 .collect(),
         ),
+        "mask" => TAd::Mask(
+            split_comma(spec)
+                .iter()
+                .map(|p| {
+                    let parts: Vec<&str> = p.split('.').collect();
+                    (intern(parts[0]), parts[1].parse().unwrap(), parts[2].parse().unwrap())
+                })
+                .collect(),
+        ),
+        "rename" => TAd::Rename(parse_names(spec)),
         "reverse" => TAd::Reverse(parse_names(spec)),
         "access" => TAd::Access(parse_names(spec)),
         "transpose" => TAd::Transpose(parse_names(spec)),
@@ -461,6 +479,32 @@ fn build_tensor<E: 'static, const D: usize>(
                 match catch(move || TensorRange::from_all(src, all)) {
                     Ok(Ok(r)) => Box::new(r),
                     Ok(Err(_)) => return Err("reject".into()),
+                    Err(k) => return Err(panic_str(k)),
+                }
+            }
+            TAd::Mask(ms) => {
+                let shape = src.view_shape();
+                let mut all: [Option<TIndexRange>; D] = std::array::from_fn(|_| None);
+                for (name, start, len) in ms {
+                    match shape.iter().position(|d| d.0 == *name) {
+                        Some(d) => all[d] = Some(TIndexRange::new(*start, *len)),
+                        None => return Err("reject".into()),
+                    }
+                }
+                match catch(move || TensorMask::from_all(src, all)) {
+                    Ok(Ok(r)) => Box::new(r),
+                    Ok(Err(_)) => return Err("reject".into()),
+                    Err(k) => return Err(panic_str(k)),
+                }
+            }
+            TAd::Rename(names) => {
+                if names.len() != D {
+                    return Err("reject".into());
+                }
+                let names: [&'static str; D] = names_array(names);
+                match catch(move || TensorRename::from(src, names)) {
+                    Ok(r) => Box::new(r),
+                    Err(PanicKind::Explicit) => return Err("reject".into()),
                     Err(k) => return Err(panic_str(k)),
                 }
             }
@@ -1047,6 +1091,14 @@ fn shape_after(shape: &[(&'static str, usize)], ad: &TAd) -> Vec<(&'static str, 
                 None => (*n, *l),
             })
             .collect(),
+        TAd::Mask(ms) => shape
+            .iter()
+            .map(|(n, l)| match ms.iter().rev().find(|r| r.0 == *n) {
+                Some((_, s, len)) => (*n, *l - std::cmp::min(s + len, *l).saturating_sub(*s)),
+                None => (*n, *l),
+            })
+            .collect(),
+        TAd::Rename(names) => shape.iter().zip(names.iter()).map(|(d, n)| (*n, d.1)).collect(),
         TAd::Reverse(_) => shape.to_vec(),
         TAd::Access(names) => {
             names.iter().map(|n| *shape.iter().find(|d| d.0 == *n).expect("name")).collect()
@@ -1064,7 +1116,32 @@ fn random_tad(g: &mut Gen, shape: &[(&'static str, usize)]) -> Option<TAd> {
     if d == 0 {
         return None;
     }
-    match g.rng.below(4) {
+    match g.rng.below(6) {
+        4 => {
+            // hide a proper part of some dimensions that have at least two indexes
+            let mut ms = vec![];
+            for (n, l) in shape {
+                if *l >= 2 && g.rng.chance(1, 2) {
+                    let start = g.rng.below(*l);
+                    let max_len = if start == 0 { l - 1 } else { *l };
+                    let len = g.rng.range(1, max_len);
+                    // never hide everything
+                    let hidden = std::cmp::min(start + len, *l) - start;
+                    if hidden < *l {
+                        ms.push((*n, start, len));
+                    }
+                }
+            }
+            if ms.is_empty() {
+                return Some(TAd::Reverse(vec![shape[g.rng.below(d)].0]));
+            }
+            Some(TAd::Mask(ms))
+        }
+        5 => {
+            let mut pool: Vec<&str> = NAME_POOL.to_vec();
+            g.rng.shuffle(&mut pool);
+            Some(TAd::Rename(pool[..d].iter().map(|n| intern(n)).collect()))
+        }
         0 => {
             // a non-empty range on a random non-empty subset of the dimensions
             let mut rs = vec![];
@@ -1173,6 +1250,8 @@ fn gen_tensor_cases(g: &mut Gen) {
                 g.count(match ad {
                     TAd::Range(_) => "tensor.adaptor=range",
                     TAd::Reverse(_) => "tensor.adaptor=reverse",
+                    TAd::Mask(_) => "tensor.adaptor=mask",
+                    TAd::Rename(_) => "tensor.adaptor=rename",
                     TAd::Access(_) => "tensor.adaptor=access",
                     TAd::Transpose(_) => "tensor.adaptor=transpose",
                 });
@@ -1237,6 +1316,8 @@ fn gen_tensor_cases(g: &mut Gen) {
         (vec![("a", 2), ("b", 3)], "range:zz.0.1"),
         (vec![("a", 2), ("b", 3)], "reverse:zz"),
         (vec![("a", 2), ("b", 3)], "access:a,a"),
+        (vec![("a", 2), ("b", 3)], "mask:b.0.3"),
+        (vec![("a", 2), ("b", 3)], "rename:x,x"),
     ] {
         g.op(format!("@ tensor {} {}", show_shape(&shape), ad));
         g.count("tensor.source=rejected");
